@@ -64,7 +64,8 @@ def run(tier, seed):
                      f"{len(STMTS)} statement shapes x {{memory, disk (pk tables: merge join / sort-agg eligible)}} over {N}-row tables (3 chunks) and a {MANY}-chunk table (more chunks than an operator's 16-slot output channel); one fault-free run lists all "
                      "(operator, item index, occurrence) positions including end-of-stream; one fault in {error, panic} injected at every position; "
                      "a case = (shape, engine, operator, k, occurrence, kind); oracle: Err, or Ok with the complete fault-free rows; failed DML leaves tables unchanged (also after reopen); "
-                     "non-trivial = the fault was actually reached (fired)", seed)
+                     "non-trivial = the fault was actually reached (fired). Plus COPY .. FROM files whose record k in {0,1,1023,1024,1025,2047,2048,2500,2999} is malformed "
+                     "(bad value, extra field, missing field) or that do not exist: the statement must fail and load nothing (also after reopen)", seed)
     res = runner.run_many("fault", js, timeout=1800, progress=4)
     npos = 0
     for j, r in zip(js, res):
@@ -126,10 +127,84 @@ def run(tier, seed):
                 chk.fail(cid, sig + "@" + run_["kind"], c, {"result": res_, "observe": run_.get("observe"), "reference": ref["result"]}, outcome=sig)
             else:
                 chk.ok(cid, nontrivial=bool(fired), outcome=("err" if st != "rows" else "ok-complete"), sample={"case": c, "status": st})
+    copy_from_failures(chk, tier)
     chk.extra.update(fault_positions=npos, statements=len(js))
     chk.assumptions += ["faults are injected in the operator's output stream (hook in executor::Builder::spawn); a panic is raised inside the operator's stream poll",
                         "Ok with the complete fault-free result is accepted (the faulted position was not needed, e.g. behind a satisfied LIMIT)"]
     return chk
+
+
+# ---- COPY .. FROM whose reader fails by itself (a malformed record at row k, a missing file): not an injected fault on an
+# operator's output but a failure INSIDE an operator's own worker; the statement must fail and load nothing
+def copy_from_failures(chk, tier):
+    import os
+    scratch = os.environ.get("RLV_SCRATCH", "/dev/shm")
+    n = 3000
+    files, scripts, meta = [], [], []
+    variants = []
+    for k in (0, 1, 1023, 1024, 1025, 2047, 2048, 2500, n - 1):
+        variants.append(("bad-value", k))
+        variants.append(("extra-field", k))
+        variants.append(("missing-field", k))
+    variants.append(("missing-file", 0))
+    variants.append(("ok", 0))
+    for engine in ("mem", "disk"):
+        for kind, k in variants:
+            f = os.path.join(scratch, f"rlv-c15-{os.getpid()}-{engine}-{kind}-{k}.csv")
+            if kind != "missing-file":
+                with open(f, "w") as fh:
+                    for i in range(n):
+                        if i == k and kind == "bad-value":
+                            fh.write(f"{i},x{i}\n")
+                        elif i == k and kind == "extra-field":
+                            fh.write(f"{i},{i},{i}\n")
+                        elif i == k and kind == "missing-field":
+                            fh.write(f"{i}\n")
+                        else:
+                            fh.write(f"{i},{i % 7}\n")
+                files.append(f)
+            steps = [{"sql": "create table c(id int, x int)"}, {"sql": "insert into c values (-1, -1), (-2, -2), (-3, -3)"},
+                     {"sql": f"copy c from '{f}'"}, {"sql": "select count(*), sum(id) from c"}]
+            if engine == "disk":
+                steps += [{"op": "reopen"}, {"sql": "select count(*), sum(id) from c"}]
+            scripts.append({"id": 0, "engine": engine, "opts": {"block": 16384, "rowset": 1 << 20}, "steps": steps})
+            meta.append({"shape": "copy-from", "engine": engine, "failure": kind, "row": k})
+    try:
+        res = runner.run_many("sql", scripts, timeout=300)
+    finally:
+        for f in files:
+            try:
+                os.remove(f)
+            except OSError:
+                pass
+    pre = [("3", "-6")]
+    full = [(str(3 + n), str(-6 + n * (n - 1) // 2))]
+    for c, r in zip(meta, res):
+        cid = core.case_id(c)
+        if r.get("abort"):
+            chk.fail(cid, "abort", c, r)
+            continue
+        rs = r["results"]
+        st = U.status(rs[2])
+        obs = [tuple(x["rows"][0]) if U.is_rows(x) and x["rows"] else None for x in rs[3:] if "sql" not in x and ("rows" in x or "err" in x)]
+        obs = [o for o in obs if o is not None]
+        if c["failure"] == "ok":
+            if st != "rows" or any(o != full[0] for o in obs):
+                chk.machinery(f"copy-from control case does not load: {json.dumps(rs[2])[:200]} {obs}")
+            else:
+                chk.ok(cid, nontrivial=True, outcome="ok-complete", sample={"case": c})
+            continue
+        sig = None
+        if st == "rows":
+            sig = "ok-with-wrong-or-missing-rows"
+        elif st in ("panic", "ok_with_task_panic"):
+            sig = "statement-panicked"
+        elif any(o != pre[0] for o in obs):
+            sig = "failed-dml-changed-the-table"
+        if sig:
+            chk.fail(cid, sig + "@copy-from", c, {"result": rs[2], "table": obs}, outcome=sig)
+        else:
+            chk.ok(cid, nontrivial=True, outcome="err", sample={"case": c})
 
 
 def _pre():
